@@ -14,6 +14,7 @@ def free_symbols(entries_list, c):
     """Names/terms of the real symbols the given entries depend on (through definitional symbols too)."""
     from symx.scalars import _factor_terms
     defs = getattr(c, "_uf_defs", {})
+    roots = getattr(c, "_root_defs", {})
     seen = set()
     out = {}
     stack = []
@@ -42,6 +43,8 @@ def free_symbols(entries_list, c):
         if z3.is_const(t) and t.decl().kind() == z3.Z3_OP_UNINTERPRETED:
             if k in defs:
                 push_R(defs[k])
+            elif k in roots:
+                stack.append(roots[k][0])
             else:
                 nm = t.decl().name()
                 if not nm.startswith("sqrt_"):
